@@ -94,6 +94,8 @@ pub open spec fn kid_spec(t: KeyType, s: SignatureScheme, algs: Option<Vec<Strin
     proof { fact_replace_str_pattern(vstd::utf8::decode_utf8(raw0), "\\n", "\n"@); fact_digest_hex(vstd::utf8::encode_utf8(public_key@)); }
 //@end
 
+// frame: a PublicKey value is only ever built by PublicKey::new, and its fields are never assigned elsewhere
+//@frame src/crypto.rs type=PublicKey fields=key_id,typ,scheme,keyid_hash_algorithms,value allow=impl:PublicKey/fn:new props=C12
 impl PublicKey {
     // C12: the stored identifier is the intrinsic identifier of the key's own type, scheme, hash-algorithm list and material
     pub closed spec fn wf_key(self) -> bool {
